@@ -190,8 +190,7 @@ pub(crate) fn crc_call(alg: &NamedAlg, target: &Shape, input: &[u8], take: bool)
     let n = buf.len();
     macro_rules! leak {
         ($t:ty, $a:expr) => {{
-            let c: &'static crc::Crc<$t> = Box::leak(Box::new(crc::Crc::<$t>::new($a)));
-            c.digest()
+            $crate::leak_crc!($t, $a).digest()
         }};
     }
     let r = catch(|| {
@@ -223,8 +222,7 @@ fn crc_frame(alg: &NamedAlg, s: &Shape, v: &Val) -> Vec<u8> {
     use postcard::ser_flavors::crc as sc;
     macro_rules! leak {
         ($t:ty, $a:expr) => {{
-            let c: &'static crc::Crc<$t> = Box::leak(Box::new(crc::Crc::<$t>::new($a)));
-            c.digest()
+            $crate::leak_crc!($t, $a).digest()
         }};
     }
     let sv = SV(s, v);
@@ -268,7 +266,12 @@ pub fn run_crc(a: &Args) {
     let _ = &targets;
     for i in 0..n {
         vcommon::obs::mark_case(&marker, &format!("crc-de:{seed}:{i}"));
-        let alg = &algs[(i as usize + seed as usize) % algs.len()];
+        let mut alg = &algs[(i as usize + seed as usize) % algs.len()];
+        if deep {
+            // exhaustive burst enumeration: checksums of at most 32 bits (the frame stays short enough to enumerate)
+            let narrow: Vec<&NamedAlg> = algs.iter().filter(|a| a.to_json()["s"].as_u64().unwrap() <= 4).collect();
+            alg = narrow[(i as usize + seed as usize) % narrow.len()];
+        }
         // every third frame has a chosen pattern of single-byte reads and block reads (runs around powers of two)
         let (ts_, vs_);
         let (t, v) = if i % 3 == 2 {
@@ -289,7 +292,9 @@ pub fn run_crc(a: &Args) {
         let mut frame = crc_frame(alg, t, &v);
         let (mut t, mut v) = (t.clone(), v);
         // deep runs enumerate every burst pattern at every offset: short frames only
-        while deep && frame.len() > 16 {
+        let cks = alg.to_json()["s"].as_u64().unwrap() as usize;
+        let _ = cks;
+        while deep && frame.len() > 10 {            // at most 80 bits x 511 burst patterns
             t = targets[r.gen_range(0..targets.len())].clone();
             v = gen::gval(&mut r, &t, false);
             frame = crc_frame(alg, &t, &v);
